@@ -2472,20 +2472,29 @@ class Trimesh(Geometry3D):
 
         # preserve face normals if we have them stored
         if has_rotation and "face_normals" in self._cache:
-            # transform face normals by rotation component
-            self._cache.cache["face_normals"] = util.unitize(
-                transformations.transform_points(
-                    self.face_normals, matrix=matrix, translate=False
+            try:
+                # normals are transformed by the inverse transpose of
+                # the linear component which for a rotation is itself
+                self._cache.cache["face_normals"] = util.unitize(
+                    np.dot(self.face_normals, np.linalg.inv(matrix[:3, :3]))
                 )
-            )
+            except np.linalg.LinAlgError:
+                # matrix is singular so normals have to be recomputed
+                self._cache.delete("face_normals")
 
         # preserve vertex normals if we have them stored
         if has_rotation and "vertex_normals" in self._cache:
-            self._cache.cache["vertex_normals"] = util.unitize(
-                transformations.transform_points(
-                    self.vertex_normals, matrix=matrix, translate=False
+            # vertex normals are weighted by face angles so they are
+            # only carried by matrices which preserve angles
+            gram = np.dot(matrix[:3, :3].T, matrix[:3, :3])
+            if np.abs(gram - _IDENTITY3 * gram[0, 0]).max() < 1e-8 * abs(gram[0, 0]):
+                self._cache.cache["vertex_normals"] = util.unitize(
+                    transformations.transform_points(
+                        self.vertex_normals, matrix=matrix, translate=False
+                    )
                 )
-            )
+            else:
+                self._cache.delete("vertex_normals")
 
         # if transformation flips winding of triangles
         if has_rotation and transformations.flips_winding(matrix):
